@@ -106,7 +106,7 @@ SPECIAL_BODIES = ['', 'True', '"True"', 'true', 'TRUE', 'True\n', ' True', '"Tru
                   'True' * 3, 'x' * 65536, 'True\x00', '﻿True', 'Тrue', 'True\r\n', '[true]', '"', '""', 'rue', 'Tru']
 TARGETS = [{'k': 'x'}, {'k': 'x', 'nested': {'a': [1, {'b': None}], 'c': 1.5}}, {'k': 'x', 'obj': object(), 'n': None},
            {'k': 'x', 'deep': {'o': [object()]}}, {'other': 1}, {'k': 'x-1', 'q': 'with space/slash?&=', 'u': 'é'}]
-CTX = ['bare', 'not', 'and', 'or', 'shortcut', 'alias']
+CTX = ['bare', 'not', 'and', 'or', 'shortcut', 'alias', 'or_later', 'nested_or_later', 'not_or_later']
 
 
 def build(ctxt, scheme, static=False):
@@ -121,6 +121,12 @@ def build(ctxt, scheme, static=False):
         t = ev.Or(ev.F, leaf)
     elif ctxt == 'shortcut':
         t = ev.Or(ev.T, leaf)
+    elif ctxt == 'or_later':
+        t = ev.Or(leaf, ev.T)                              # a later alternative would accept: a fault still raises
+    elif ctxt == 'nested_or_later':
+        t = ev.Or(ev.And(ev.T, leaf), ev.role('r1'))
+    elif ctxt == 'not_or_later':
+        t = ev.Not(ev.Or(leaf, ev.role('r1')))
     else:
         t = ev.rule('remote')
     return t, leaf
